@@ -37,3 +37,25 @@ Proof.
   destruct encode_spec_stored_refuted as (o & data & H). exists o, data. tauto.
 Qed.
 Print Assumptions C09_stored_domain_refuted.
+
+(* ---- legacy frames ---- *)
+From LZ4V Require Import LegacySpec LegacyProofs LegacyTruncSpec LegacyFrameSpecSpec LegacyFrameSpecProofs.
+(* shape: the legacy magic, no descriptor, then for each chunk of at most 8 MiB a size word and a block
+   that decodes (specification decoder, empty dictionary) to exactly that chunk, or the chunk stored
+   raw under a flagged size word (finding F17-raw) *)
+Theorem C09_legacy_shape : legacy_frame_shape_stmt.  Proof. exact legacy_frame_shape. Qed.
+Print Assumptions C09_legacy_shape.
+(* the independent specification (which has no kernel-trailer rule) decodes every legacy session's
+   frame to exactly the bytes written — no side condition, any length *)
+Theorem C09_legacy_frame : legacy_encode_spec_stmt.  Proof. exact legacy_encode_spec. Qed.
+Print Assumptions C09_legacy_frame.
+(* the strict reading (no raw-flagged blocks) holds exactly when every chunk compresses, which is the
+   case whenever no chunk exceeds 8355700 bytes *)
+Theorem C09_legacy_frame_strict : legacy_encode_spec_strict_stmt.  Proof. exact legacy_encode_spec_strict. Qed.
+Print Assumptions C09_legacy_frame_strict.
+Theorem C09_legacy_strict_iff : legacy_strict_iff_stmt.  Proof. exact legacy_strict_iff. Qed.
+Print Assumptions C09_legacy_strict_iff.
+Theorem C09_legacy_raw_only_large : legacy_raw_only_large_stmt.  Proof. exact legacy_raw_only_large. Qed.
+Print Assumptions C09_legacy_raw_only_large.
+Theorem C09_legacy_frame_strict_small : legacy_encode_spec_strict_small_data_stmt.  Proof. exact legacy_encode_spec_strict_small_data. Qed.
+Print Assumptions C09_legacy_frame_strict_small.
